@@ -218,6 +218,12 @@ type rcase struct {
 	Eval    bool              `json:"eval"`
 	Hash    string            `json:"hash"`
 	Eras    map[string]string `json:"eras,omitempty"`
+	// history class: what the same transaction object held / was validated as before
+	History    string   `json:"history,omitempty"` // "reuse" | "witness-edit"
+	PrevScript string   `json:"prev_script_cbor,omitempty"`
+	PrevStart  *uint64  `json:"prev_validity_start,omitempty"`
+	PrevTTL    *uint64  `json:"prev_ttl,omitempty"`
+	PrevVkeys  []string `json:"prev_vkeys,omitempty"`
 }
 
 type guard struct {
@@ -225,8 +231,8 @@ type guard struct {
 	Hash []byte
 }
 
-var vkeys [][]byte  // the key universe (verification keys)
-var khash [][]byte  // their Blake2b-224 hashes
+var vkeys [][]byte // the key universe (verification keys)
+var khash [][]byte // their Blake2b-224 hashes
 
 func b224(b []byte) []byte {
 	h, _ := blake2b.New(28, nil)
@@ -750,7 +756,7 @@ func corpus(c *vh.Ctx, cf *vh.CaseFile) {
 
 func run(c *vh.Ctx) error {
 	initKeys()
-	c.Res.Rule = "native scripts as CBOR trees (depth <= 3 quick / 4 thorough, width <= 3) over a 3-key universe, leaf slots and transaction bounds drawn from {absent, 0, b-1, b, b+1, 2^64-2, 2^64-1} around a per-case boundary b, n-of-k thresholds {0,1,len,len+1,random,huge}, 10% non-minimal inner headers / chunked strings, a malformed stream with key hashes of length != 28; each evaluated directly (Evaluate) and through the six era rules on a decoded transaction. Distinct by (mode, script bytes, bounds, witnesses, guards); non-trivial = decodable and (nested or a time lock)."
+	c.Res.Rule = "native scripts as CBOR trees (depth <= 3 quick / 4 thorough, width <= 3) over a 3-key universe; plus a history class (validate tx A, then decode tx B into the same object or replace its witness set, validate again: must equal B alone), leaf slots and transaction bounds drawn from {absent, 0, b-1, b, b+1, 2^64-2, 2^64-1} around a per-case boundary b, n-of-k thresholds {0,1,len,len+1,random,huge}, 10% non-minimal inner headers / chunked strings, a malformed stream with key hashes of length != 28; each evaluated directly (Evaluate) and through the six era rules on a decoded transaction. Distinct by (mode, script bytes, bounds, witnesses, guards); non-trivial = decodable and (nested or a time lock)."
 	c.Res.Modelled = []string{
 		"Blake2b-224 is symbolic in the model (hash term evaluated by golang.org/x/crypto in the correspondence) and a universally quantified function in C29_hash",
 		"decoding is modelled only for the generated shapes (definite minimal outer header and type id; non-minimal forms of those are property C03); fxamacker's leniencies (null for a list / integer) are outside the model",
@@ -789,11 +795,29 @@ func run(c *vh.Ctx) error {
 			fmt.Sscanf(g, "%d:%s", &t, &hx)
 			gl = append(gl, guard{t, vh.UnHex(hx)})
 		}
+		if rp.Replay.History != "" {
+			pit, _, err := vh.ParseItem(vh.UnHex(rp.Replay.PrevScript))
+			if err != nil {
+				return fmt.Errorf("replay: cannot parse previous script: %v", err)
+			}
+			var pw []int
+			for _, v := range rp.Replay.PrevVkeys {
+				for i := range vkeys {
+					if vh.Hex(vkeys[i]) == v {
+						pw = append(pw, i)
+					}
+				}
+			}
+			runHistory(c, cf, rp.Replay.History, hspec{pit, rp.Replay.PrevStart, rp.Replay.PrevTTL, pw}, hspec{it, rp.Replay.Start, rp.Replay.TTL, wit})
+			cf.Flush()
+			return nil
+		}
 		runCase(c, cf, rp.Replay.Direct, it, rp.Replay.Start, rp.Replay.TTL, wit, nil, gl)
 		cf.Flush()
 		return nil
 	}
 	corpus(c, cf)
+	historyCases(c, cf)
 	n := c.Pick(1000, 6000)
 	for i := 0; i < n; i++ {
 		g := &gen{r: c.Rng, b: boundaries[c.Rng.Intn(len(boundaries))]}
